@@ -1206,7 +1206,7 @@ fn main() {
         |tier: Tier, r: &mut Runner| {
             let th = tier == Tier::Thorough;
             part1(tier, r);
-            let b = Bounds::new(tier.pick(7, 8), tier.pick(30, 400));
+            let b = Bounds::new(tier.pick(6, 8), tier.pick(30, 400));
             for fl in [Fl::Example, Fl::SortedSha, Fl::SortedKeccak, Fl::IndexedSha, Fl::IndexedKeccak] {
                 r.world(&Dist { fl, thorough: th }, &b);
             }
